@@ -405,9 +405,15 @@ def parseMessage(rawMessage, oobFDs):
             pass
 
     if m.signature:
-        # a SIGNATURE is at most 255 bytes long; a peer may however put a
-        # string of any length into the field, and splitting a signature
-        # into complete types is quadratic in its length
+        # a SIGNATURE is at most 255 bytes long; the field is however a
+        # variant: a peer may put a string of any length - or a value of any
+        # other type, e.g. an array holding one long string - into it, and
+        # splitting a signature into complete types is quadratic in its
+        # length
+        if not isinstance(m.signature, str):
+            raise error.MarshallingError(
+                'SIGNATURE header field is not a signature')
+
         if len(m.signature) > 255:
             raise error.MarshallingError(
                 'Signature exceeds the maximum length of 255')
